@@ -11,12 +11,15 @@ package c12
 import (
 	"encoding/json"
 	"fmt"
+	"math"
 	"net/http"
 	"net/http/httptest"
 	"reflect"
 	"strings"
 	"sync"
+	"sync/atomic"
 	"testing"
+	"time"
 
 	"github.com/google/martian/v3"
 	mlog "github.com/google/martian/v3/log"
@@ -31,6 +34,7 @@ import (
 	_ "github.com/google/martian/v3/martianurl"
 	_ "github.com/google/martian/v3/method"
 	_ "github.com/google/martian/v3/noop"
+	_ "github.com/google/martian/v3/port"
 	_ "github.com/google/martian/v3/priority"
 	_ "github.com/google/martian/v3/querystring"
 	_ "github.com/google/martian/v3/skip"
@@ -40,8 +44,22 @@ import (
 	tr "verifharness/props/treeref"
 )
 
+// inertFromJSON is the parse function of the harness-defined node type
+// verif.Inert: what an embedding program (a plug-in, an init function)
+// registers with parse.Register. It does nothing on either side.
+func inertFromJSON(b []byte) (*parse.Result, error) {
+	msg := struct {
+		Scope []parse.ModifierType `json:"scope"`
+	}{}
+	if err := json.Unmarshal(b, &msg); err != nil {
+		return nil, err
+	}
+	return parse.NewResult(martian.Noop("verif.Inert"), msg.Scope)
+}
+
 func TestMain(m *testing.M) {
 	mlog.SetLevel(mlog.Silent)
+	parse.Register(tr.Inert, inertFromJSON)
 	kit.Assume("headers named Transfer-Encoding are never generated (the third field-backed header of proxyutil is left to C14)")
 	kit.Assume("header names, cookie names/values and query parameters are plain tokens; quoting/escaping rules of net/http are trusted, not explored")
 	kit.Main(m, "C12")
@@ -255,6 +273,7 @@ type shape struct {
 	filters        map[string]bool
 	hasElse        bool
 	singleSideLeaf bool
+	hugePrio       bool // two entries of one priority group differ and both lie beyond +-2^53
 	prioOmitted    bool // a priority entry without the "priority" key that follows an entry with a non-zero priority
 }
 
@@ -290,6 +309,14 @@ func shapeOf(root *tr.Node) shape {
 			for i := range n.Kids {
 				if i > 0 && i < len(n.NoPrio) && n.NoPrio[i] && n.PrioOf(i-1) != 0 {
 					s.prioOmitted = true
+				}
+			}
+			for i := range n.Kids {
+				for j := range n.Kids {
+					a, b := n.PrioOf(i), n.PrioOf(j)
+					if a != b && (a >= 1<<53 || a <= -(1<<53)) && (b >= 1<<53 || b <= -(1<<53)) {
+						s.hugePrio = true
+					}
 				}
 			}
 			seen := map[int]bool{}
@@ -366,6 +393,9 @@ func classes(c Case) []string {
 	if s.prioOmitted {
 		cl = append(cl, "priority-key-omitted-after-nonzero")
 	}
+	if s.hugePrio {
+		cl = append(cl, "priorities-beyond-2^53")
+	}
 	if s.hasElse {
 		cl = append(cl, "else-present")
 	}
@@ -411,6 +441,10 @@ var (
 	schemes     = tr.Schemes
 	cookieNames = tr.CookieNames
 )
+
+// hugeBases + {0,1,2}: 2^53 (where float64 stops being exact), a nanosecond
+// timestamp, the top and the bottom of int64, a large negative value.
+var hugeBases = []int{1 << 53, 1700000000123456789, math.MaxInt64 - 2, math.MinInt64, -(1 << 53) - 2, 1<<62 + 1}
 
 type gen struct {
 	t        *rapid.T
@@ -476,9 +510,14 @@ func (g *gen) leaf() *tr.Node {
 	case k < 94:
 		n.T = tr.CookieModifier
 		n.P["name"], n.P["value"] = pick(t, "cname", cookieNames), pick(t, "cval", vals)
-	case k < 96:
+	case k < 95:
 		n.T = tr.Noop
 		n.P["name"] = "inert"
+	case k < 96:
+		n.T, n.P = tr.Inert, nil
+	case k < 98:
+		n.T, n.P = tr.PortModifier, nil
+		n.N = []int{80, 8080}[uni(t, "port", 2)]
 	default:
 		n.T = tr.SkipRoundTrip
 		n.P = nil
@@ -528,9 +567,19 @@ func (g *gen) node(depth int) *tr.Node {
 	case k < 72:
 		n := &tr.Node{ID: g.id(), T: tr.Priority}
 		w := uni(t, "width", g.maxWidth+1)
+		// 1 group in 4 uses priorities of 64-bit size (ids, nanosecond
+		// timestamps): all its entries sit within 0..2 of one base, so that
+		// neighbours differ by less than anything but exact integer
+		// comparison can tell apart - higher and lower ones in any listed order.
+		huge := uni(t, "hugeprio", 4) == 0
+		base := hugeBases[uni(t, "hugebase", len(hugeBases))]
 		for i := 0; i < w; i++ {
 			n.Kids = append(n.Kids, g.node(depth+1))
-			n.Prio = append(n.Prio, uni(t, "prio", 4)-1)
+			if huge && uni(t, "hugeentry", 5) > 0 {
+				n.Prio = append(n.Prio, base+uni(t, "hugeoff", 3))
+			} else {
+				n.Prio = append(n.Prio, uni(t, "prio", 4)-1)
+			}
 			// 1 entry in 4 omits the "priority" key altogether (legal: priority 0)
 			omit := uni(t, "noprio", 4) == 0
 			n.NoPrio = append(n.NoPrio, omit)
@@ -593,6 +642,10 @@ func injectFault(t *rapid.T, c *Case) {
 	}
 	n := nodes[uni(t, "faultnode", len(nodes))]
 	n.Fault = kind
+	if kind == tr.FaultScopeUnsupported {
+		// the unsupported kind alone, after / before the supported one, twice, ...
+		n.FaultAt = uni(t, "scopevariant", len(tr.ScopeUnsupportedVariants))
+	}
 	if kind == tr.FaultNoModifier && n.T == tr.Priority {
 		n.FaultAt = uni(t, "faultat", len(n.Kids)) // any entry, also one that follows a complete entry
 	}
@@ -618,13 +671,13 @@ func genCase(t *rapid.T) Case {
 	return c
 }
 
-var treeRule = "configuration trees over fifo.Group / priority.Group / url,header,querystring,method,cookie filters (with and without else) / registered leaves (trace probes, header set/append/delete on headers the conditions read, error leaves, request-only and response-only leaves), scope drawn at every node from {absent,[request],[response],both,[]}, 1 priority entry in 4 without a priority key, depth <= 4|6, width <= 4|6; 1 in 5 carries one fault (unknown name, unsupported scope, invalid scope string, two keys, a filter or priority entry without modifier, truncated text, non-whitespace bytes after the complete tree) and must be rejected; valid ones are applied to 4 request/response pairs and compared with the reference interpreter (final message, returned errors as a multiset); non-trivial = depth >= 3, or differing scopes on a root-to-leaf path, or an error leaf under an aggregating group, or a priority tie"
+var treeRule = "configuration trees over fifo.Group / priority.Group / url,header,querystring,method,cookie filters (with and without else) / registered leaves (trace probes, header set/append/delete on headers the conditions read, error leaves, request-only and response-only leaves), scope drawn at every node from {absent,[request],[response],both,[]}, 1 priority entry in 4 without a priority key, 1 priority group in 4 with 64-bit-sized priorities (2^53, timestamps, MaxInt64, MinInt64 +0..2), a kind named twice in a scope, depth <= 4|6, width <= 4|6; 1 in 5 carries one fault (unknown name, unsupported scope, invalid scope string, two keys, a filter or priority entry without modifier, truncated text, non-whitespace bytes after the complete tree) and must be rejected; valid ones are applied to 4 request/response pairs and compared with the reference interpreter (final message, returned errors as a multiset); non-trivial = depth >= 3, or differing scopes on a root-to-leaf path, or an error leaf under an aggregating group, or a priority tie"
 
 var propTree = &kit.Prop[Case]{
 	ID: "C12", Name: "tree", Rule: "rapid-drawn " + treeRule,
 	Gen: genCase, Run: runTree, NonTrivial: nontrivial, Classes: classes,
 	Gates: map[string]float64{
-		"depth>=3": 0.30, "mixed-scopes-on-path": 0.10, "err-under-aggregate": 0.04, "priority-tie": 0.08, "priority-key-omitted-after-nonzero": 0.04,
+		"depth>=3": 0.30, "mixed-scopes-on-path": 0.10, "err-under-aggregate": 0.04, "priority-tie": 0.08, "priority-key-omitted-after-nonzero": 0.04, "priorities-beyond-2^53": 0.03,
 		"cond-true": 0.20, "cond-false": 0.20, "rejected": 0.10, "error-reported": 0.10, "else-present": 0.20,
 	},
 }
@@ -640,7 +693,7 @@ func TestTree(t *testing.T) { propTree.Check(t, kit.N(6000, 40000)) }
 // holds on the request and fails on the response, and one the other way round.
 var propEnum = &kit.Prop[Case]{
 	ID: "C12", Name: "enum-two-level",
-	Rule: "ALL two-level trees: 6 root kinds (fifo, aggregating fifo, priority 1/2, priority tie, priority 2/key omitted, priority key omitted/-1) x 5 root scopes x (3 child shapes x 5 child scopes)^2 = 6750 configurations, each on 2 message pairs (filter condition true/false per side); non-trivial = same rule as the tree check",
+	Rule: "ALL two-level trees: 9 root kinds (fifo, aggregating fifo, priority 1/2, priority tie, priority 2/key omitted, priority key omitted/-1, priority 2^53+1/2^53, priority 5/MaxInt64, priority timestamps one apart) x 5 root scopes x (3 child shapes x 5 child scopes)^2 = 10125 configurations, each on 2 message pairs (filter condition true/false per side); non-trivial = same rule as the tree check",
 	Run:  runTree, NonTrivial: nontrivial, Classes: classes,
 }
 
@@ -683,7 +736,7 @@ func TestEnum(t *testing.T) {
 			Res: tr.Res{Status: 200, Header: map[string][]string{"X-A": {"2", "1"}}}},
 	}
 	propEnum.Enumerate(t, func(yield func(Case) bool) {
-		for root := 0; root < 6; root++ {
+		for root := 0; root < 9; root++ {
 			for rs := 0; rs < 5; rs++ {
 				for a := 0; a < 15; a++ {
 					for b := 0; b < 15; b++ {
@@ -701,6 +754,12 @@ func TestEnum(t *testing.T) {
 							n.T, n.Prio, n.NoPrio = tr.Priority, []int{2, 0}, []bool{false, true}
 						case 5: // first entry has no "priority" key: 0, runs before the second (-1)
 							n.T, n.Prio, n.NoPrio = tr.Priority, []int{0, -1}, []bool{true, false}
+						case 6: // neighbours beyond 2^53, the higher one listed first
+							n.T, n.Prio = tr.Priority, []int{1<<53 + 1, 1 << 53}
+						case 7: // the largest priority runs first
+							n.T, n.Prio = tr.Priority, []int{5, math.MaxInt64}
+						case 8: // nanosecond timestamps one apart, the higher one listed first
+							n.T, n.Prio = tr.Priority, []int{1700000000123456790, 1700000000123456789}
 						}
 						n.HasScope, n.Scope = scopeOption(rs)
 						n.Kids = []*tr.Node{enumChild(a/5, a%5, 10), enumChild(b/5, b%5, 20)}
@@ -721,6 +780,30 @@ func TestEnum(t *testing.T) {
 type Step struct {
 	Post *Case `json:"post,omitempty"` // Msgs unused
 	Eval *Pair `json:"eval,omitempty"`
+	Reg  bool  `json:"reg,omitempty"` // the embedding program calls parse.Register (legal at any time: the registry is locked)
+}
+
+// registryStuck is set once a step did not return: the parse registry is
+// process-wide, a configuration call that hangs on it takes every later one
+// with it. What follows in this process can no longer be judged.
+var registryStuck atomic.Bool
+
+// bounded runs f and waits for it: T, then once more up to 3T in total.
+func bounded(check string, f func()) bool {
+	done := make(chan struct{})
+	go func() { defer close(done); f() }()
+	select {
+	case <-done:
+		return true
+	case <-time.After(kit.T()):
+	}
+	select {
+	case <-done:
+		kit.Inconclusive(check)
+		return true
+	case <-time.After(2 * kit.T()):
+		return false
+	}
 }
 
 // History is a reconfiguration history through martianhttp.Modifier.
@@ -729,15 +812,38 @@ type History struct {
 }
 
 func runHistory(h History) kit.Verdict {
+	if registryStuck.Load() {
+		return nil // see registryStuck: the first such history is the finding
+	}
 	m := martianhttp.NewModifier()
 	var active *tr.Node
 	var activeText []byte
 	var v kit.Verdict
+	unknownRejected := false // a document naming an unknown modifier was rejected earlier in this history
+	shape := func() string {
+		if unknownRejected {
+			return "after-rejected-unknown-modifier"
+		}
+		return "any-time"
+	}
 	for i, st := range h.Steps {
 		switch {
+		case st.Reg:
+			if !bounded("reconfigure", func() { parse.Register(tr.Inert, inertFromJSON) }) {
+				registryStuck.Store(true)
+				return kit.Failf("C12/reconfigure/register-"+shape()+"/call-does-not-return", "step %d: parse.Register of a harness-defined node type did not return within %v; history so far: %s", i, 3*kit.T(), js(h.Steps[:i+1]))
+			}
 		case st.Post != nil:
 			rw := httptest.NewRecorder()
-			m.ServeHTTP(rw, httptest.NewRequest("POST", "/configure", strings.NewReader(string(st.Post.text()))))
+			if !bounded("reconfigure", func() {
+				m.ServeHTTP(rw, httptest.NewRequest("POST", "/configure", strings.NewReader(string(st.Post.text()))))
+			}) {
+				registryStuck.Store(true)
+				return kit.Failf("C12/reconfigure/post-"+shape()+"/call-does-not-return", "step %d: POST did not return within %v: %s", i, 3*kit.T(), st.Post.text())
+			}
+			if st.Post.mustReject() && st.Post.faultName() == tr.FaultUnknownName && st.Post.Cut < 0 && st.Post.Tail == "" {
+				unknownRejected = true
+			}
 			if st.Post.mustReject() {
 				if rw.Code < 400 || rw.Code > 499 {
 					v.Addf("C12/reconfigure/"+st.Post.faultName()+"/faulty-post-not-refused", "step %d: POST of a configuration with fault %q answered %d: %s", i, st.Post.faultName(), rw.Code, st.Post.text())
@@ -767,6 +873,26 @@ func runHistory(h History) kit.Verdict {
 	return v
 }
 
+// regStats: a Register call after a rejected document naming an unknown
+// modifier, followed by a valid document.
+func regStats(h History) (regs int, regAfterUnknownThenValid bool) {
+	unknown, regAfter := false, false
+	for _, st := range h.Steps {
+		switch {
+		case st.Reg:
+			regs++
+			regAfter = regAfter || unknown
+		case st.Post != nil && st.Post.mustReject():
+			if st.Post.Cut < 0 && st.Post.Tail == "" && st.Post.faultName() == tr.FaultUnknownName {
+				unknown = true
+			}
+		case st.Post != nil:
+			regAfterUnknownThenValid = regAfterUnknownThenValid || regAfter
+		}
+	}
+	return
+}
+
 func histStats(h History) (posts, rejected, evalAfterReject, replaced int) {
 	accepted := 0
 	for i, st := range h.Steps {
@@ -790,20 +916,43 @@ func histStats(h History) (posts, rejected, evalAfterReject, replaced int) {
 
 var propHistory = &kit.Prop[History]{
 	ID: "C12", Name: "reconfigure",
-	Rule: "histories of 2..12|20 steps through martianhttp.Modifier.ServeHTTP: POST of a valid or faulty configuration tree (same generator as the tree check, depth <= 3) interleaved with evaluations of message pairs; a faulty POST must be refused (4xx) and leave the previous tree fully in force, a valid one (2xx) must replace it completely; non-trivial = an evaluation right after a rejected POST while a configuration is active, or a second accepted configuration",
+	Rule: "histories of 2..12|20 steps through martianhttp.Modifier.ServeHTTP: POST of a valid or faulty configuration tree (same generator as the tree check, depth <= 3) interleaved with evaluations of message pairs and - once a document naming an unknown modifier has been rejected in the history - with parse.Register calls of the embedding program (a harness-defined node type), usually followed by a valid document; every POST and Register call must return within T (re-validated at 3T); a faulty POST must be refused (4xx) and leave the previous tree fully in force, a valid one (2xx) must replace it completely; non-trivial = an evaluation right after a rejected POST while a configuration is active, or a second accepted configuration",
 	Gen: func(t *rapid.T) History {
 		var h History
 		n := 2 + uni(t, "steps", kit.N(11, 19))
+		// Register calls are drawn only once a document naming an unknown
+		// modifier has been rejected in this same history: a call that hangs is
+		// then always preceded, in its own history, by what can make it hang,
+		// and the saved case reproduces in a fresh process (the registry is
+		// process-wide and earlier cases also parse unknown names).
+		unknown := false
+		post := func(faulty bool) *Case {
+			g := &gen{t: t, maxDepth: 1 + uni(t, "maxdepth", 3), maxWidth: 3}
+			c := Case{Tree: g.node(1), Cut: -1}
+			if faulty {
+				injectFault(t, &c)
+			}
+			h.Steps = append(h.Steps, Step{Post: &c})
+			p := genPair(t) // every POST is followed by at least one evaluation
+			h.Steps = append(h.Steps, Step{Eval: &p})
+			return &c
+		}
 		for i := 0; i < n; i++ {
-			if uni(t, "post", 3) == 0 {
-				g := &gen{t: t, maxDepth: 1 + uni(t, "maxdepth", 3), maxWidth: 3}
-				c := Case{Tree: g.node(1), Cut: -1}
-				if uni(t, "faulty", 2) == 0 {
-					injectFault(t, &c)
+			k := uni(t, "post", 9)
+			if k == 3 && unknown {
+				h.Steps = append(h.Steps, Step{Reg: true})
+				continue
+			}
+			if k < 3 {
+				c := post(uni(t, "faulty", 2) == 0)
+				if c.mustReject() && c.Cut < 0 && c.Tail == "" && c.faultName() == tr.FaultUnknownName {
+					unknown = true
+					if uni(t, "thenregister", 3) > 0 {
+						// ... the program registers a node type, then a valid document arrives
+						h.Steps = append(h.Steps, Step{Reg: true})
+						post(false)
+					}
 				}
-				h.Steps = append(h.Steps, Step{Post: &c})
-				p := genPair(t) // every POST is followed by at least one evaluation
-				h.Steps = append(h.Steps, Step{Eval: &p})
 			} else {
 				p := genPair(t)
 				h.Steps = append(h.Steps, Step{Eval: &p})
@@ -828,9 +977,16 @@ var propHistory = &kit.Prop[History]{
 		if rep > 0 {
 			cl = append(cl, "config-replaced")
 		}
+		regs, rauv := regStats(h)
+		if regs > 0 {
+			cl = append(cl, "has-register-call")
+		}
+		if rauv {
+			cl = append(cl, "register-after-rejected-unknown-then-valid-post")
+		}
 		return cl
 	},
-	Gates: map[string]float64{"eval-after-rejected-post": 0.25, "config-replaced": 0.25},
+	Gates: map[string]float64{"eval-after-rejected-post": 0.25, "config-replaced": 0.25, "has-register-call": 0.08, "register-after-rejected-unknown-then-valid-post": 0.06},
 }
 
 func TestReconfigure(t *testing.T) { propHistory.Check(t, kit.N(3000, 16000)) }
@@ -921,6 +1077,11 @@ var propRace = &kit.Prop[RaceCase]{
 	},
 }
 
-func TestReconfigureConcurrent(t *testing.T) { propRace.Check(t, kit.N(40, 120)) }
+func TestReconfigureConcurrent(t *testing.T) {
+	if registryStuck.Load() {
+		t.Skip("a configuration call of an earlier check never returned; the process-wide parse registry is stuck")
+	}
+	propRace.Check(t, kit.N(40, 120))
+}
 
 func TestReplay(t *testing.T) { kit.Replay(t, propTree, propEnum, propHistory, propRace) }
